@@ -160,13 +160,13 @@ class bound_composite_array(base_array):
             raise ProphyError("exceeded array limit")
 
         new_element = self._TYPE()
-        self._values.append(new_element)
         for name, value in attributes.items():
             attr = getattr(new_element, name)
             if isinstance(attr, base_array):
                 attr[:] = value
             else:
                 setattr(new_element, name, value)
+        self._values.append(new_element)
         return new_element
 
     def extend(self, elem_seq):
